@@ -41,3 +41,11 @@ claim("C06",
       "comparison derived over (secs, nanos); no product with a truncated quotient. Exactness of results is not decided.",
       "Trusted: analysis/abs*.py, specs/justifications.txt, rustc const evaluation.",
       "DESIGN.md 5/C06")
+claim("C07",
+      "acceptance-box extraction from path conditions, copy/term-shape rules, finite map of hms over 86400 seconds, interval abstract interpretation of naive/time",
+      "Decides: which (hour, minute, second, nanosecond) and (seconds, nanosecond) combinations the constructors accept (boxes read from the path conditions, leap "
+      "fraction only on second 59) and what they store; milli/micro constructors' checked factors; with_* replace exactly one component and copy the other; hms() and the "
+      "accessors for every second of the day; offset shifts copy the fraction and wrap modulo 86400; sub = add of the negated duration; every NaiveTime construction site keeps "
+      "secs < 86400 and frac < 2*10^9 and no arithmetic in naive/time can overflow. The leap-second stepping rules and the difference of two times are not decided.",
+      "Trusted: analysis/sym.py, analysis/abs*.py, specs/justifications.txt.",
+      "DESIGN.md 5/C07")
